@@ -333,3 +333,24 @@ def decoder_case(p, res):
                 bad = next((i for i in range(len(msgs)) if tuple(out.shape) != (len(msgs), k) or out[i].to(torch.float32).tolist() != [float(t) for t in msgs_o[i]]), 0)
                 res.viol(dec, cfg, "polarity", f"codeword of message {msgs_o[bad]} sent with {scheme}, soft-demodulated and decoded -> {out[bad].tolist() if out.dim() == 2 else tuple(out.shape)}", {"msg": msgs[bad]})
     res.sample({"decoder": dec, "n": n, "k": k})
+
+
+# ----------------------------------------------------------------------------- spelling equivalence of the constructors behind this property
+# (positional / keyword / mixed spellings of one legal call configure the same object; shared helper kmc/spelling.py)
+_cases0, _execute0, _component0 = cases, execute, component_of
+
+
+def cases(tier, seed):  # noqa: F811
+    yield from _cases0(tier, seed)
+    yield f"{PID}|spelling", {"kind": "spelling", "tier": tier}
+
+
+def execute(p, res):  # noqa: F811
+    if p.get("kind") == "spelling":
+        from kmc import spelling
+        return spelling.run(PID, res)
+    return _execute0(p, res)
+
+
+def component_of(p):  # noqa: F811
+    return "spelling" if p.get("kind") == "spelling" else _component0(p)
